@@ -171,15 +171,15 @@ package ro
 //@   ensures [initial-teardown-first|C03] teardown != nil ==> result.finalizers[0] == teardown
 
 //@ func (*subscriptionImpl).Add
-//@   props C03 C06 C14 C07
+//@   props C03 C06 C14 C07 C05
 //@   binds teardown
 //@   scope done finalizers mu s teardown varargs
 //@   panicforks
 //@   maypanic
 //@   track callfn.*
 //@   ensures [nil-is-noop|C03] teardown == nil ==> trace() && count(lock.mu) == 0
-//@   ensures [late-add-runs-now-once|C03,C14] teardown != nil && atlock(done) ==> trace(callfn.teardown()) && len(atunlock(finalizers)) == len(atlock(finalizers))
-//@   ensures [open-add-appends|C03] teardown != nil && !atlock(done) ==> trace() && len(atunlock(finalizers)) == len(atlock(finalizers)) + 1 && atunlock(finalizers)[len(atlock(finalizers))] == teardown
+//@   ensures [late-add-runs-now-once|C03,C14,C05] teardown != nil && atlock(done) ==> trace(callfn.teardown()) && len(atunlock(finalizers)) == len(atlock(finalizers))
+//@   ensures [open-add-appends|C03,C05] teardown != nil && !atlock(done) ==> trace() && len(atunlock(finalizers)) == len(atlock(finalizers)) + 1 && atunlock(finalizers)[len(atlock(finalizers))] == teardown
 //@   ensures [only-own-panic] panics ==> panicked(teardown)
 //@   ensures [a-late-teardown-runs-unlocked|C03,C06,C07] notheldat(mu, callfn.teardown)
 
